@@ -16,7 +16,8 @@ RULE = ('cases = tables (multi-byte text, empty resources, 1-3 resources) x form
         'and row counts against the bytes on disk); distinct = distinct case digest'
         '; round 4: counters also switched off one kind at a time; byte-identical resources under add_filehash_to_path, dumped afresh and again into the same directory'
         '; round 7: two dumpers in one flow each with its own counters, a later step that stops reading early, every counters configuration in both text formats'
-        '; round 8: resource names with dots that are equal up to the first dot')
+        '; round 8: resource names with dots that are equal up to the first dot'
+        '; round 9: cells of a million characters (files of several MiB)')
 TRUSTED = ['Coq 8.16.1 kernel + vm_compute', 'harness/p09.py oracle (recomputes size, md5 and row count from the written bytes)',
            'md5 is a parameter H of the theorems']
 ASSUMES = ['resource paths distinct and different from datapackage.json']
